@@ -869,7 +869,9 @@ def near_miss_mutants(d, counter):
         if d.align_attr == 1:
             m = clone(); m.reprs = list(m.reprs) + ['align(16)']; m.align_attr = 16; out.append(('repr-align-added', m))
         else:
-            m = clone(); m.reprs = ['C', 'align(%d)' % (d.align_attr * 2)]; m.align_attr = d.align_attr * 2; out.append(('repr-align-changed', m))
+            # 64 is the largest alignment the loaders support (load_mem allocates at 64): halve instead of doubling there
+            na = d.align_attr * 2 if d.align_attr < 64 else d.align_attr // 2
+            m = clone(); m.reprs = ['C', 'align(%d)' % na]; m.align_attr = na; out.append(('repr-align-changed', m))
     if d.cparams:
         m = clone(); m.cparams[0]['name'] = m.cparams[0]['name'] + 'X'
         # rename the uses
